@@ -83,4 +83,34 @@ mod verif_oracle_ntt {
             if poly_eval_monomial(&p, x) != want { println!("COUNTEREXAMPLE poly_eval_monomial len={} differs from sum a_i x^i", n); }
         }
     }
+
+    // Executable form of the poly_eval_lagrange_batched contract (unit lagrange_eval): the Lagrange-basis evaluation must equal the value of the
+    // interpolant (inverse transform + Horner) at EVERY point - random points, every node of the polynomial's own domain, and the nodes of the
+    // doubled domain (primitive 2n-th roots, which Flp::query accepts as query randomness).
+    #[test]
+    fn oracle_lagrange_eval() {
+        use crate::polynomial::{poly_eval_lagrange_batched, poly_eval_monomial};
+        for d in 0..=6usize {
+            let n = 1usize << d;
+            let p0 = sample(n, 11 + d as u64);
+            let p1 = sample(n, 97 + d as u64);
+            let c0 = get_ntt_inv(&p0, n).unwrap();
+            let c1 = get_ntt_inv(&p1, n).unwrap();
+            let w = Field64::root(d).unwrap();
+            let w2 = Field64::root(d + 1).unwrap();
+            let mut points: Vec<(String, Field64)> = vec![("a random point".into(), Field64::from(0x1234_5678_9abc_def1u64)), ("zero".into(), Field64::zero()), ("one".into(), Field64::one())];
+            let mut x = Field64::one();
+            for k in 0..n { points.push((format!("node w^{} of its own domain", k), x)); x *= w; }
+            let mut x2 = w2;
+            for k in 0..n.min(8) { points.push((format!("node w_2n^{} of the doubled domain", 2 * k + 1), x2)); x2 *= w; }
+            for (what, x) in points {
+                let got = poly_eval_lagrange_batched(&[p0.clone(), p1.clone()], x);
+                let want = [poly_eval_monomial(&c0, x), poly_eval_monomial(&c1, x)];
+                if got.len() != 2 || got[0] != want[0] || got[1] != want[1] {
+                    println!("COUNTEREXAMPLE poly_eval_lagrange_batched: {} polynomials of {} Lagrange-basis values evaluated at {}: result differs from the value of the interpolating polynomial (inverse transform + Horner)", 2, n, what);
+                    return;
+                }
+            }
+        }
+    }
 }
